@@ -331,6 +331,8 @@ class DistributedInvocation(BaseInvocation[Params, Result]):
                 self.invocation_id, InvocationStatus.RUNNING, runner_ctx
             )
             self._register_workflow_run()
+            # every execution of the body replays the workflow operations from the start
+            self._deterministic_executor = None
             result = run_task_sync(self.task.func, **self.arguments.kwargs)
             self.app.orchestrator.set_invocation_result(self, result, runner_ctx)
         except WorkflowPauseError as ex:
